@@ -226,11 +226,16 @@ class CoordinateList(CompressionFormat):
 
     # API Methods
     def handleToPayload(self, handle):
-        # if next level has implicit payloads above (e.g. U), payload is implicit
+        if handle == None:
+            return None
+        # if next level has implicit payloads above (e.g. U), payload is implicit:
+        # the fibers of the next rank are laid out in order, one per element,
+        # so the element at this handle owns the fiber at position
+        # (elements of the earlier fibers in this rank) + handle
         if self.next_fmt != None and not self.next_fmt.encodeUpperPayload():
-            print("\t\tnext level not encoded, ret {}".format(self.occupancy_so_far))
+            print("\t\tnext level not encoded, ret {}".format(self.occupancy_so_far + handle))
             
-            return self.occupancy_so_far # self.idx_in_rank + handle
+            return self.occupancy_so_far + handle
         return handle
 
     # API Methods
